@@ -21,6 +21,11 @@ def text_of(o):
         return None
 
 
+def _is_plain_sequence(o):
+    import collections
+    return isinstance(o, (range, collections.deque))
+
+
 def _name(k):
     if isinstance(k, str):
         return k
@@ -172,6 +177,8 @@ def check_frame_fidelity(snapshot, frame_index, f_locals, max_str, max_coll, max
         if v.type != type(o).__name__:
             return "type-name-wrong"
         txt = text_of(o)
+        if txt is not None and _is_plain_sequence(o) and v.value == "Size: %d" % len(o):
+            txt = v.value       # sequence kinds without a rule of their own (range, deque): the container rendering is truthful too
         if txt is not None:
             if v.value != txt[:max_str]:
                 return "value-text-wrong"
@@ -192,6 +199,15 @@ def check_frame_fidelity(snapshot, frame_index, f_locals, max_str, max_coll, max
         if (type(o) in LIST_LIKE or isinstance(o, Exception)) and len(v.children) > max(max_coll, 0):
             return "collection-cap-exceeded"
         for c in v.children:
+            if c.name not in by_name and _is_plain_sequence(o) and str(c.name).isdigit() and int(c.name) < len(o):
+                # listing the elements of such a sequence is truthful when each entry shows THAT element - compared by
+                # value: the elements are produced on demand, there is no lasting identity
+                if c.vid not in snapshot.var_lookup:
+                    return "dangling-reference"
+                cv, el = snapshot.var_lookup[c.vid], o[int(c.name)]
+                if cv.type != type(el).__name__ or (text_of(el) is not None and cv.value != text_of(el)[:max_str]):
+                    return "child-entry-shows-another-element"
+                continue
             if c.name not in by_name:
                 return "child-name-not-in-object"
             orig, co = by_name[c.name]
